@@ -33,6 +33,13 @@ type CtlCase struct {
 	// FailNetErr: the failing handler returns a temporary net.Error instead
 	// of a plain error.
 	FailNetErr bool `json:"fail_net_err,omitempty"`
+	// FailCloseSent: the failing handler returns websocket.ErrCloseSent (what
+	// "return c.WriteControl(...)" yields once the application has sent its
+	// close); it is a handler error like any other.
+	FailCloseSent bool `json:"fail_close_sent,omitempty"`
+	// IdleFirst: more than a second passes between the set-up of the
+	// connection and the first read (rare: it costs real time).
+	IdleFirst bool `json:"idle_first,omitempty"`
 	// Reinstall: the handler of control frame ReinstallAt replaces all three
 	// handlers from inside the handler (SetPingHandler etc.); every later
 	// frame must reach the new set.
@@ -99,6 +106,8 @@ func genCtlCase(t *rapid.T) CtlCase {
 	c.TightLimit = rapid.IntRange(0, 3).Draw(t, "tight_limit") == 0
 	c.StaleWriteDeadline = rapid.IntRange(0, 3).Draw(t, "stale_wdl") == 0
 	c.FailNetErr = rapid.Bool().Draw(t, "fail_net_err")
+	c.FailCloseSent = !c.FailNetErr && rapid.Bool().Draw(t, "fail_close_sent")
+	c.IdleFirst = rapid.IntRange(0, 299).Draw(t, "idle_first") == 137
 	if rapid.IntRange(0, 2).Draw(t, "reinstall") == 0 {
 		c.Reinstall, c.ReinstallAt = true, rapid.IntRange(0, 3).Draw(t, "reinstall_at")
 	}
@@ -118,6 +127,8 @@ func checkC08(c CtlCase, o *Obs) error {
 	errHandler := errHandler
 	if c.FailNetErr {
 		errHandler = errHandlerNet
+	} else if c.FailCloseSent {
+		errHandler = websocket.ErrCloseSent
 	}
 	h := &handlerLog{failAt: -1, prog: prog, custom: c.Handlers == "custom", failErr: errHandler, reinstall: c.Reinstall, reinstallAfter: c.ReinstallAt}
 	nctl := len(model.Ctl)
@@ -163,6 +174,10 @@ func checkC08(c CtlCase, o *Obs) error {
 		case 3:
 			cn.SetReadDeadline(time.Time{})
 		}
+	}
+	if c.IdleFirst {
+		time.Sleep(1100 * time.Millisecond)
+		o.Class("idle_for_a_second_before_the_first_read")
 	}
 	logFrom, readStart := len(tr.Log), time.Now()
 	rt := RunReadP(conn, c.Reads, len(model.Msgs)+1, lens, 4, prog)
